@@ -124,7 +124,7 @@ func (p *pair) checkNeedReseed() {
 func history(x *mon.Ctx) {
 	selfTests(x)
 	cfgs := configs()
-	per := x.Scale(360, 5400) // histories per configuration (28 configurations)
+	per := x.Scale(500, 5400) // histories per configuration (28 configurations)
 	for i := 0; i < per; i++ {
 		for _, g := range cfgs {
 			hp := planHistory(x, g, i)
